@@ -305,13 +305,14 @@ def finish(ctx, meta):
                            reproduced_on_replay=reproduced), f, indent=1)
         if not reproduced:
             print('HARNESS-ERROR: property=%s signature %s did not reproduce on replay (%s)' % (prop, sig, path))
-            rc = max(rc, 2)
+            if rc == 0:
+                rc = 2  # undecided, unless a reproduced violation is reported as well
             continue
         new_viol += 1
         print('VIOLATION property=%s replay=%s' % (prop, path))
         print('  signature: %s' % sig)
         print('  detail: %s' % str(v.get('detail'))[:600])
-        rc = 1 if rc != 2 else rc
+        rc = 1
     if new_viol > MAXREP:
         print('(%d further violation signatures not listed individually)' % (new_viol - MAXREP))
     if res.crashed:
